@@ -41,6 +41,37 @@ class P(Prop):
             sg = [[C.bits(e), C.bits(rng.choice([-0.0, -0.0, 0.0, 1.5])), C.bits(rng.choice([1.0, -3.0, 0.0, -0.0]))] for e in es]
             xs = [rng.choice(Z + [C.bits(-1.0), C.bits(0.5), C.bits(5e-324), C.bits(-5e-324)]) for _ in range(8)]
             out.append(dict(op="pw_eval", ty="Poly1", segs=sg, xs=xs, meta={"class": "pw_eval/signed_zero"}))
+        # pieces whose VALUE is NaN or infinite (constant pieces with such a tag), queried exactly on every breakpoint: the value is
+        # the selected piece's, whatever it is
+        for _ in range(10 if tier == "quick" else 120):
+            k = rng.randint(2, 8)
+            es, sg = G.tag_segs(rng, k, rng.choice(["inc", "ints", "dups"]))
+            sg = [list(s_) for s_ in sg]
+            for s_ in sg:
+                if rng.random() < 0.5:
+                    s_[1] = rng.choice([C.NAN_BITS, C.NAN_BITS, C.bits(float("inf")), C.bits(float("-inf"))])
+            xs = [C.bits(e) for e in es] + [C.next_down(C.bits(e)) for e in es] + [C.next_up(C.bits(e)) for e in es]
+            out.append(dict(op="pw_eval", ty="Poly0", segs=sg, xs=xs, meta={"class": "pw_eval/nan_valued_pieces"}))
+        # (nearly) equally spaced breakpoints - first + step*(n-1) == last exactly - queried one ulp below / above every knot, on the
+        # knots and in between: any index ARITHMETIC in place of the comparison shows on the rounding of (x - first)/step
+        for _ in range(14 if tier == "quick" else 160):
+            n = rng.randint(3, 12)
+            st = rng.choice([0.1, 1.0 / 3.0, 1.0 / 7.0, 0.7, 0.5, 1.0, 1e16, 2.5])
+            first = rng.choice([0.0, -1.0, -0.5, 0.25, -st])
+            es = [first + st * i for i in range(n)] if rng.random() < 0.7 else [first + i * st for i in range(n - 1)] + [first + st * (n - 1)]
+            if rng.random() < 0.3 and n >= 4:
+                # irregular inside, regular at the three probed places
+                j = rng.randrange(2, n - 1)
+                es[j] = es[j] + rng.choice([0.5, 0.25, 0.3]) * st
+                if j == n - 2 and rng.random() < 0.5:
+                    es[j] = es[n - 1]                 # a zero-width last piece
+            sg = [[C.bits(e), C.bits(float(10 * (i + 1)))] for i, e in enumerate(es)]
+            xs = []
+            for e in es:
+                b = C.bits(e)
+                xs += [b, C.next_down(b), C.next_up(b), C.bits(e - 0.3 * st), C.bits(e + 0.4 * st)]
+            xs += [C.bits(-5e-324), C.bits(5e-324), C.bits(-1e-17), C.bits(0.6), C.bits(2.2), C.bits(2.5)]
+            out.append(dict(op="pw_eval", ty="Poly0", segs=sg, xs=xs, meta={"class": "pw_eval/regular_grid"}))
         out.append(dict(op="pw_eval", ty="Poly0", segs=[], xs=[0], meta={"class": "empty"}))
         return out
 
